@@ -535,6 +535,18 @@ func (self *Fork) resetPartial() error {
 		redoOutputs = true
 	}
 	if redoOutputs {
+		// The jobs which run again leave temporary files again, so what
+		// was cleaned up after their first run does not count for them.
+		self.storageLock.Lock()
+		if partial := self.getPartialKillReport(); partial != nil &&
+			(partial.Join || (partial.Chunks && !self.Split())) {
+			partial.Join = false
+			if !self.Split() {
+				partial.Chunks = false
+			}
+			self.writePartialKill(partial)
+		}
+		self.storageLock.Unlock()
 		if _, ok := self.join_metadata.getState(); ok {
 			if err := self.join_metadata.uncheckedReset(); err != nil {
 				return err
